@@ -1,31 +1,1162 @@
+// Harness for C03: drives the REAL graphql/executor (directly, the way a transport does, and through
+// handler.Server + transport.POST) with instrumented extensions of every hook-kind subset, a universal
+// hand-built ExecutableSchema and a logging wrapper around the real query caches, and prints per
+// request the protocol line for the Lean driver together with what was observed (accept/reject,
+// answers, ordered event log). Query texts are classified by an oracle that calls gqlparser directly
+// (parse, each rule group with an explicit rule list, VariableValues) on its own copy of the document.
+//
+// Modes:  -mode seq    sequential sessions (default)
+//         -mode conc   concurrent requests on one executor, per-request logs (run under -race in thorough)
+//         -mode window concurrent first requests with SetDisableSuggestion(true): does a request
+//                      with an unknown field get past validation? (F03's semantic window)
 package main
 
 import (
+	"bufio"
+	"bytes"
 	"context"
+	"encoding/json"
+	"flag"
 	"fmt"
+	"net/http/httptest"
+	"os"
+	"sort"
+	"strconv"
+	"strings"
+	"sync"
+	"sync/atomic"
+
+	"github.com/vektah/gqlparser/v2"
+	"github.com/vektah/gqlparser/v2/ast"
+	"github.com/vektah/gqlparser/v2/gqlerror"
+	"github.com/vektah/gqlparser/v2/parser"
+	"github.com/vektah/gqlparser/v2/validator"
+	"github.com/vektah/gqlparser/v2/validator/rules"
 
 	"github.com/99designs/gqlgen/graphql"
-	"github.com/99designs/gqlgen/graphql/executor/testexecutor"
-	"github.com/vektah/gqlparser/v2/ast"
+	"github.com/99designs/gqlgen/graphql/executor"
+	"github.com/99designs/gqlgen/graphql/handler"
+	"github.com/99designs/gqlgen/graphql/handler/lru"
+	"github.com/99designs/gqlgen/graphql/handler/transport"
+	"verifharness/internal/rng"
 )
 
-func main() {
-	for _, cached := range []bool{false, true} {
-		e := testexecutor.New()
-		if cached {
-			e.SetQueryCache(graphql.MapCache[*ast.QueryDocument]{})
+var out = bufio.NewWriterSize(os.Stdout, 1<<20)
+
+const schemaText = `
+type Query {
+  a: Int
+  name: String!
+  b(x: Int!): T
+  c(s: String, n: [Int!]): T
+  d(i: Inp): Int
+  list: [T!]
+}
+type T { id: ID!  v: Int  w(k: Int = 1): String  t: T  name: String }
+type Mutation { set(x: Int!): T  bump: Int }
+type Subscription { tick(n: Int): T  beat: Int }
+input Inp { a: Int!  b: String }
+`
+
+var schema = gqlparser.MustLoadSchema(&ast.Source{Input: schemaText})
+
+// ------------------------------------------------------------------ per-request log
+
+type logKey struct{}
+type pathKey struct{}
+
+type reqLog struct {
+	mu sync.Mutex
+	ev []string
+	// Spec-side flags raised by the cache wrapper
+	addInvalid bool
+}
+
+func lg(ctx context.Context, f string, a ...any) {
+	rl, _ := ctx.Value(logKey{}).(*reqLog)
+	if rl == nil {
+		return
+	}
+	rl.mu.Lock()
+	rl.ev = append(rl.ev, fmt.Sprintf(f, a...))
+	rl.mu.Unlock()
+}
+
+func pathOf(ctx context.Context) string {
+	p, _ := ctx.Value(pathKey{}).(string)
+	return p
+}
+
+// ------------------------------------------------------------------ request tags
+
+type tags struct {
+	PmRej []int             `json:"pmrej,omitempty"`
+	PmRw  map[string]string `json:"pmrw,omitempty"`
+	CmRej []int             `json:"cmrej,omitempty"`
+	Blk   []int             `json:"blk,omitempty"`
+	XErr  bool              `json:"xerr,omitempty"`
+	Emit  int               `json:"emit"`
+}
+
+func getTags(ext map[string]any) *tags {
+	v, ok := ext["c03"]
+	if !ok {
+		return &tags{Emit: 1}
+	}
+	if t, ok := v.(*tags); ok {
+		return t
+	}
+	b, _ := json.Marshal(v)
+	t := &tags{}
+	_ = json.Unmarshal(b, t)
+	return t
+}
+
+func has(l []int, i int) bool {
+	for _, x := range l {
+		if x == i {
+			return true
 		}
-		q := "query A { name } query B { name }"
-		for _, op := range []string{"A", "", "B"} {
-			ctx := graphql.StartOperationTrace(context.Background())
-			oc, errs := e.CreateOperationContext(ctx, &graphql.RawParams{Query: q, OperationName: op})
-			if errs != nil {
-				fmt.Println(cached, op, "REJECT", errs)
-				continue
+	}
+	return false
+}
+
+// ------------------------------------------------------------------ instrumented extensions
+
+type base struct {
+	id    int
+	flags string
+}
+
+func (b *base) name() string { return fmt.Sprintf("C03Ext%d", b.id) }
+
+func coded(msg, code string) *gqlerror.Error {
+	return &gqlerror.Error{Message: msg, Extensions: map[string]any{"code": code}}
+}
+
+func (b *base) mutateParams(ctx context.Context, p *graphql.RawParams) *gqlerror.Error {
+	lg(ctx, "pm%d", b.id)
+	t := getTags(p.Extensions)
+	if has(t.PmRej, b.id) {
+		return coded("rejected by parameter mutator", fmt.Sprintf("C03_PM%d", b.id))
+	}
+	if q, ok := t.PmRw[strconv.Itoa(b.id)]; ok {
+		p.Query = q
+	}
+	return nil
+}
+
+func (b *base) mutateContext(ctx context.Context, oc *graphql.OperationContext) *gqlerror.Error {
+	lg(ctx, "cm%d", b.id)
+	if has(getTags(oc.Extensions).CmRej, b.id) {
+		return coded("rejected by context mutator", fmt.Sprintf("C03_CM%d", b.id))
+	}
+	return nil
+}
+
+func (b *base) interceptOperation(ctx context.Context, next graphql.OperationHandler) graphql.ResponseHandler {
+	lg(ctx, "O+%d", b.id)
+	if has(getTags(graphql.GetOperationContext(ctx).Extensions).Blk, b.id) {
+		lg(ctx, "O-%d", b.id)
+		return graphql.OneShot(&graphql.Response{Errors: gqlerror.List{coded("blocked", fmt.Sprintf("C03_BLK%d", b.id))}})
+	}
+	rh := next(ctx)
+	lg(ctx, "O-%d", b.id)
+	return rh
+}
+
+func (b *base) interceptResponse(ctx context.Context, next graphql.ResponseHandler) *graphql.Response {
+	lg(ctx, "R+%d", b.id)
+	r := next(ctx)
+	lg(ctx, "R-%d", b.id)
+	return r
+}
+
+func (b *base) interceptRootField(ctx context.Context, next graphql.RootResolver) graphql.Marshaler {
+	lg(ctx, "T+%d@%s", b.id, pathOf(ctx))
+	m := next(ctx)
+	lg(ctx, "T-%d@%s", b.id, pathOf(ctx))
+	return m
+}
+
+func (b *base) interceptField(ctx context.Context, next graphql.Resolver) (any, error) {
+	lg(ctx, "F+%d@%s", b.id, pathOf(ctx))
+	r, err := next(ctx)
+	lg(ctx, "F-%d@%s", b.id, pathOf(ctx))
+	return r, err
+}
+
+// ------------------------------------------------------------------ universal schema
+
+func fieldsOf(ss ast.SelectionSet) []*ast.Field {
+	var fs []*ast.Field
+	for _, s := range ss {
+		if f, ok := s.(*ast.Field); ok {
+			fs = append(fs, f)
+		}
+	}
+	return fs
+}
+
+func resolveField(ctx context.Context, oc *graphql.OperationContext, obj string, f *ast.Field, path string) {
+	ctx = context.WithValue(ctx, pathKey{}, path)
+	ctx = graphql.WithFieldContext(ctx, &graphql.FieldContext{Object: obj, Field: graphql.CollectedField{Field: f}, IsResolver: true})
+	_, _ = oc.ResolverMiddleware(ctx, func(ctx context.Context) (any, error) {
+		lg(ctx, "D@%s", path) // the field's directive chain
+		lg(ctx, "V@%s", path) // the resolver
+		return 1, nil
+	})
+}
+
+var es = &graphql.ExecutableSchemaMock{
+	SchemaFunc: func() *ast.Schema { return schema },
+	ComplexityFunc: func(ctx context.Context, typeName, fieldName string, childComplexity int, args map[string]any) (int, bool) {
+		return 0, false
+	},
+	ExecFunc: func(ctx context.Context) graphql.ResponseHandler {
+		lg(ctx, "X")
+		oc := graphql.GetOperationContext(ctx)
+		t := getTags(oc.Extensions)
+		if t.XErr {
+			graphql.AddError(ctx, coded("exec set-up failed", "C03_EXEC"))
+			return graphql.OneShot(&graphql.Response{})
+		}
+		avail := 1
+		rootName := "Query"
+		switch oc.Operation.Operation {
+		case ast.Mutation:
+			rootName = "Mutation"
+		case ast.Subscription:
+			rootName = "Subscription"
+			avail = t.Emit
+		}
+		j := 0
+		return func(ctx context.Context) *graphql.Response {
+			if j >= avail {
+				return nil
 			}
-			rh, ctx2 := e.DispatchOperation(ctx, oc)
-			r := rh(ctx2)
-			fmt.Println(cached, op, "EXEC", string(r.Data), r.Errors, len(oc.Doc.Operations))
+			j++
+			for a, f := range fieldsOf(oc.Operation.SelectionSet) {
+				pa := strconv.Itoa(a)
+				fctx := context.WithValue(ctx, pathKey{}, pa)
+				fctx = graphql.WithFieldContext(fctx, &graphql.FieldContext{Object: rootName, Field: graphql.CollectedField{Field: f}, IsResolver: true})
+				f := f
+				_ = oc.RootResolverMiddleware(fctx, func(ctx context.Context) graphql.Marshaler {
+					resolveField(ctx, oc, rootName, f, pa)
+					for b, c := range fieldsOf(f.SelectionSet) {
+						resolveField(ctx, oc, "T", c, pa+"."+strconv.Itoa(b))
+					}
+					return graphql.Null
+				})
+			}
+			return &graphql.Response{Data: json.RawMessage(`{}`)}
 		}
+	},
+}
+
+// ------------------------------------------------------------------ logging cache wrapper
+
+type logCache struct {
+	inner graphql.Cache[*ast.QueryDocument]
+}
+
+func (c logCache) Get(ctx context.Context, key string) (*ast.QueryDocument, bool) {
+	d, ok := c.inner.Get(ctx, key)
+	if ok {
+		lg(ctx, "g%dh", keyOf(key))
+	} else {
+		lg(ctx, "g%dm", keyOf(key))
+	}
+	return d, ok
+}
+
+func (c logCache) Add(ctx context.Context, key string, d *ast.QueryDocument) {
+	lg(ctx, "a%d", keyOf(key))
+	// Spec on the implementation: only a document that is valid under the complete rule set and has an
+	// operation may be stored (oracle verdict of this text, computed on the oracle's own copy)
+	if o := classify(key); !o.parses || o.nField != 0 || o.nOther != 0 || len(o.ops) == 0 {
+		if rl, _ := ctx.Value(logKey{}).(*reqLog); rl != nil {
+			rl.addInvalid = true
+		}
+		atomic.AddInt64(&invalidAdds, 1)
+	}
+	c.inner.Add(ctx, key, d)
+}
+
+var invalidAdds int64
+
+// ------------------------------------------------------------------ oracle (gqlparser called directly)
+
+type opInfo struct {
+	name  string
+	sub   bool
+	roots []int
+	def   *ast.OperationDefinition
+}
+
+type verdict struct {
+	key     int
+	parses  bool
+	ops     []opInfo
+	nField  int
+	nOther  int
+	sugg    bool
+	emitted bool
+}
+
+var (
+	tableMu sync.Mutex
+	table   = map[string]*verdict{}
+)
+
+var otherRules = []validator.Rule{
+	rules.FragmentsOnCompositeTypesRule, rules.KnownArgumentNamesRule, rules.KnownDirectivesRule,
+	rules.KnownFragmentNamesRule, rules.KnownRootTypeRule, rules.KnownTypeNamesRule,
+	rules.LoneAnonymousOperationRule, rules.MaxIntrospectionDepth, rules.NoFragmentCyclesRule,
+	rules.NoUndefinedVariablesRule, rules.NoUnusedFragmentsRule, rules.NoUnusedVariablesRule,
+	rules.OverlappingFieldsCanBeMergedRule, rules.PossibleFragmentSpreadsRule,
+	rules.ProvidedRequiredArgumentsRule, rules.ScalarLeafsRule, rules.SingleFieldSubscriptionsRule,
+	rules.UniqueArgumentNamesRule, rules.UniqueDirectivesPerLocationRule, rules.UniqueFragmentNamesRule,
+	rules.UniqueInputFieldNamesRule, rules.UniqueOperationNamesRule, rules.UniqueVariableNamesRule,
+	rules.ValuesOfCorrectTypeRule, rules.VariablesAreInputTypesRule, rules.VariablesInAllowedPositionRule,
+}
+
+func classify(text string) *verdict {
+	tableMu.Lock()
+	defer tableMu.Unlock()
+	if v, ok := table[text]; ok {
+		return v
+	}
+	v := &verdict{key: len(table)}
+	table[text] = v
+	doc, err := parser.ParseQuery(&ast.Source{Input: text})
+	if err != nil {
+		return v
+	}
+	v.parses = true
+	fe := validator.Validate(schema, doc, rules.FieldsOnCorrectTypeRule)
+	v.nField = len(fe)
+	for _, e := range fe {
+		if strings.Contains(e.Message, "Did you mean") {
+			v.sugg = true
+		}
+	}
+	v.nOther = len(validator.Validate(schema, doc, otherRules...))
+	for _, op := range doc.Operations {
+		oi := opInfo{name: op.Name, sub: op.Operation == ast.Subscription, def: op}
+		for _, f := range fieldsOf(op.SelectionSet) {
+			oi.roots = append(oi.roots, len(fieldsOf(f.SelectionSet)))
+		}
+		v.ops = append(v.ops, oi)
+	}
+	return v
+}
+
+func keyOf(text string) int { return classify(text).key }
+
+// qLine prints the Q line of a text the first time it is used.
+func qLine(text string) {
+	v := classify(text)
+	if v.emitted {
+		return
+	}
+	v.emitted = true
+	if !v.parses {
+		fmt.Fprintf(out, "Q\tQ %d -\t%s\n", v.key, strconv.Quote(text))
+		return
+	}
+	var ops []string
+	for _, o := range v.ops {
+		n := o.name
+		if n == "" {
+			n = "_"
+		}
+		k := "q"
+		if o.sub {
+			k = "s"
+		}
+		rs := "-"
+		if len(o.roots) > 0 {
+			var s []string
+			for _, r := range o.roots {
+				s = append(s, strconv.Itoa(r))
+			}
+			rs = strings.Join(s, ".")
+		}
+		ops = append(ops, n+"/"+k+"/"+rs)
+	}
+	os_ := "-"
+	if len(ops) > 0 {
+		os_ = strings.Join(ops, ";")
+	}
+	sg := 0
+	if v.sugg {
+		sg = 1
+	}
+	fmt.Fprintf(out, "Q\tQ %d %d:%d:%d:%s\t%s\n", v.key, v.nField, v.nOther, sg, os_, strconv.Quote(text))
+}
+
+func decodeVars(js string) map[string]any {
+	if js == "" {
+		return nil
+	}
+	dec := json.NewDecoder(strings.NewReader(js))
+	dec.UseNumber()
+	var m map[string]any
+	if err := dec.Decode(&m); err != nil {
+		panic(err)
+	}
+	return m
+}
+
+// varsBits: per operation of the text, does VariableValues accept the variables ("-" when no document)
+func varsBits(text, varsJSON string) (bits string) {
+	v := classify(text)
+	if !v.parses || len(v.ops) == 0 {
+		return "-"
+	}
+	for _, o := range v.ops {
+		ok := func() (ok bool) {
+			defer func() {
+				if recover() != nil {
+					ok = true
+				}
+			}()
+			_, err := validator.VariableValues(schema, o.def, decodeVars(varsJSON))
+			return err == nil
+		}()
+		if ok {
+			bits += "1"
+		} else {
+			bits += "0"
+		}
+	}
+	return bits
+}
+
+// ------------------------------------------------------------------ the global rule list
+
+func resetRules() {
+	validator.RemoveRule(rules.FieldsOnCorrectTypeRuleWithoutSuggestions.Name)
+	validator.RemoveRule(rules.FieldsOnCorrectTypeRule.Name)
+	validator.AddRule(rules.FieldsOnCorrectTypeRule.Name, rules.FieldsOnCorrectTypeRule.RuleFunc)
+}
+
+// ------------------------------------------------------------------ sessions
+
+type extSpec struct {
+	id    int
+	flags string
+}
+
+type session struct {
+	cache   string
+	disable bool
+	exts    []extSpec
+	server  bool // through handler.Server + transport.POST instead of calling the executor directly
+
+	exec *executor.Executor
+	srv  *handler.Server
+}
+
+func (s *session) line() string {
+	d := 0
+	if s.disable {
+		d = 1
+	}
+	var es_ []string
+	for _, e := range s.exts {
+		es_ = append(es_, fmt.Sprintf("%d:%s", e.id, e.flags))
+	}
+	x := "-"
+	if len(es_) > 0 {
+		x = strings.Join(es_, ",")
+	}
+	return fmt.Sprintf("S %s %d %s", s.cache, d, x)
+}
+
+func newCache(kind string) graphql.Cache[*ast.QueryDocument] {
+	switch {
+	case kind == "none":
+		return logCache{graphql.NoCache[*ast.QueryDocument]{}}
+	case kind == "map":
+		return logCache{graphql.MapCache[*ast.QueryDocument]{}}
+	case strings.HasPrefix(kind, "lru"):
+		n, _ := strconv.Atoi(kind[3:])
+		return logCache{lru.New[*ast.QueryDocument](n)}
+	}
+	panic(kind)
+}
+
+func (s *session) build() {
+	if s.server {
+		s.srv = handler.New(es)
+		s.srv.AddTransport(transport.POST{})
+		s.srv.SetQueryCache(newCache(s.cache))
+		s.srv.SetDisableSuggestion(s.disable)
+		for _, e := range s.exts {
+			s.srv.Use(newExt(&base{e.id, e.flags}))
+		}
+		return
+	}
+	s.exec = executor.New(es)
+	s.exec.SetQueryCache(newCache(s.cache))
+	s.exec.SetDisableSuggestion(s.disable)
+	for _, e := range s.exts {
+		s.exec.Use(newExt(&base{e.id, e.flags}))
+	}
+}
+
+type request struct {
+	text   string
+	op     string
+	vars   string // JSON object or ""
+	pmrej  []int
+	pmrw   map[int]string
+	cmrej  []int
+	blk    []int
+	xerr   bool
+	emit   int
+	polls  int
+	class_ string // generator class, for the input distribution
+}
+
+func ints(l []int) string {
+	if len(l) == 0 {
+		return "-"
+	}
+	var s []string
+	for _, x := range l {
+		s = append(s, strconv.Itoa(x))
+	}
+	return strings.Join(s, ",")
+}
+
+// finalText: the text the executor will parse (oracle: rewrites of registered P extensions in order)
+func (s *session) finalText(r *request) string {
+	t := r.text
+	for _, e := range s.exts {
+		if !strings.Contains(e.flags, "P") {
+			continue
+		}
+		if has(r.pmrej, e.id) {
+			break
+		}
+		if q, ok := r.pmrw[e.id]; ok {
+			t = q
+		}
+	}
+	return t
+}
+
+func (s *session) reqLine(r *request) string {
+	qLine(r.text)
+	var rw []string
+	ids := make([]int, 0, len(r.pmrw))
+	for i := range r.pmrw {
+		ids = append(ids, i)
+	}
+	sort.Ints(ids)
+	for _, i := range ids {
+		qLine(r.pmrw[i])
+		rw = append(rw, fmt.Sprintf("%d>%d", i, keyOf(r.pmrw[i])))
+	}
+	rws := "-"
+	if len(rw) > 0 {
+		rws = strings.Join(rw, ",")
+	}
+	op := r.op
+	if op == "" {
+		op = "_"
+	}
+	x := 0
+	if r.xerr {
+		x = 1
+	}
+	return fmt.Sprintf("%d %s %s %s %s %s %s %d %d %d", keyOf(r.text), op, varsBits(s.finalText(r), r.vars),
+		ints(r.pmrej), rws, ints(r.cmrej), ints(r.blk), x, r.emit, r.polls)
+}
+
+func (r *request) tags() *tags {
+	t := &tags{PmRej: r.pmrej, CmRej: r.cmrej, Blk: r.blk, XErr: r.xerr, Emit: r.emit}
+	if len(r.pmrw) > 0 {
+		t.PmRw = map[string]string{}
+		for i, q := range r.pmrw {
+			t.PmRw[strconv.Itoa(i)] = q
+		}
+	}
+	return t
+}
+
+func codeOf(errs gqlerror.List) string {
+	if len(errs) == 0 {
+		return "-"
+	}
+	e := errs[0]
+	c, _ := e.Extensions["code"].(string)
+	switch {
+	case c == "GRAPHQL_PARSE_FAILED":
+		return "P"
+	case c == "GRAPHQL_VALIDATION_FAILED":
+		switch {
+		case e.Message == "no operation provided":
+			return "N"
+		case strings.HasPrefix(e.Message, "operation ") && strings.HasSuffix(e.Message, " not found"):
+			return "S"
+		case len(e.Path) > 0:
+			return "A"
+		default:
+			return "V"
+		}
+	case strings.HasPrefix(c, "C03_PM"):
+		return "pm" + c[6:]
+	case strings.HasPrefix(c, "C03_CM"):
+		return "cm" + c[6:]
+	case strings.HasPrefix(c, "C03_BLK"):
+		return "blk" + c[7:]
+	case c == "C03_EXEC":
+		return "X"
+	}
+	return "?" + c
+}
+
+func showResp(r *graphql.Response) string {
+	if r == nil {
+		return "nil"
+	}
+	d, s := 0, 0
+	if len(r.Data) > 0 && string(r.Data) != "null" {
+		d = 1
+	}
+	for _, e := range r.Errors {
+		if strings.Contains(e.Message, "Did you mean") {
+			s = 1
+		}
+	}
+	return fmt.Sprintf("d%de%dc%ss%d", d, len(r.Errors), codeOf(r.Errors), s)
+}
+
+// do runs one request and returns (accepted?, answers, log, flags)
+func (s *session) do(r *request) (acc string, resps string, log string, flags string) {
+	rl := &reqLog{}
+	ctx := context.WithValue(context.Background(), logKey{}, rl)
+	var rs []string
+	defer func() {
+		if p := recover(); p != nil {
+			acc, resps, log, flags = "panic", "-", strings.Join(rl.ev, ","), fmt.Sprint(p)
+		}
+	}()
+	if s.server {
+		body := map[string]any{"query": r.text, "extensions": map[string]any{"c03": r.tags()}}
+		if r.op != "" {
+			body["operationName"] = r.op
+		}
+		if r.vars != "" {
+			body["variables"] = json.RawMessage(r.vars)
+		}
+		b, _ := json.Marshal(body)
+		req := httptest.NewRequest("POST", "/query", bytes.NewReader(b)).WithContext(ctx)
+		req.Header.Set("Content-Type", "application/json")
+		w := httptest.NewRecorder()
+		s.srv.ServeHTTP(w, req)
+		var resp graphql.Response
+		if err := json.Unmarshal(w.Body.Bytes(), &resp); err != nil {
+			return "baddoc", w.Body.String(), strings.Join(rl.ev, ","), "http"
+		}
+		rs = append(rs, showResp(&resp))
+		// accepted? : what CreateOperationContext decided is visible as "some event after the gates"
+		acc = "rej"
+		if c := codeOf(resp.Errors); c == "-" || c == "X" || strings.HasPrefix(c, "blk") {
+			acc = "ok"
+		}
+	} else {
+		ctx = graphql.StartOperationTrace(ctx)
+		params := &graphql.RawParams{Query: r.text, OperationName: r.op, Variables: decodeVars(r.vars),
+			Extensions: map[string]any{"c03": r.tags()}}
+		oc, errs := s.exec.CreateOperationContext(ctx, params)
+		if len(errs) != 0 {
+			acc = "rej"
+			rs = append(rs, showResp(s.exec.DispatchError(graphql.WithOperationContext(ctx, oc), errs)))
+		} else {
+			acc = "ok"
+			rh, ctx2 := s.exec.DispatchOperation(ctx, oc)
+			for i := 0; i < r.polls; i++ {
+				resp := rh(ctx2)
+				rs = append(rs, showResp(resp))
+				if resp == nil {
+					break
+				}
+			}
+		}
+	}
+	log = "-"
+	if len(rl.ev) > 0 {
+		log = strings.Join(rl.ev, ",")
+	}
+	resps = "-"
+	if len(rs) > 0 {
+		resps = strings.Join(rs, ";")
+	}
+	flags = "-"
+	if rl.addInvalid {
+		flags = "cache-add-of-unvalidated-document"
+	}
+	return
+}
+
+// ------------------------------------------------------------------ generators
+
+var rootFields = []string{"a", "name", "b(x: 1) { id }", "b(x: 2) { id v }", "c(s: \"x\") { id w(k: 2) name }", "c { v }",
+	"d(i: {a: 1})", "d(i: {a: 2, b: \"y\"})", "list { id }", "list { id t { id } v }", "c(n: [1, 2]) { id }"}
+
+func pick[T any](r *rng.R, l []T) T { return l[r.Below(len(l))] }
+
+func genSel(r *rng.R, root string) string {
+	switch root {
+	case "Mutation":
+		return pick(r, []string{"bump", "set(x: 1) { id }", "m1: bump m2: set(x: 3) { id v }", "set(x: 2) { id w }"})
+	case "Subscription":
+		return pick(r, []string{"beat", "tick { id }", "tick(n: 2) { id v name }"})
+	}
+	n := 1 + r.Below(3)
+	var fs []string
+	for i := 0; i < n; i++ {
+		fs = append(fs, fmt.Sprintf("k%d: %s", i, pick(r, rootFields)))
+	}
+	return strings.Join(fs, " ")
+}
+
+type genq struct {
+	text, class_ string
+	ops         []string // operation names to choose from ("" = none)
+	vars        []string // candidate variables JSON ("" = none); first = valid
+}
+
+func genValid(r *rng.R) genq {
+	switch r.Below(6) {
+	case 0:
+		return genq{text: "{ " + genSel(r, "Query") + " }", class_: "valid-anon", ops: []string{""}}
+	case 1:
+		return genq{text: "query A { " + genSel(r, "Query") + " }", class_: "valid-named", ops: []string{"A", ""}}
+	case 2:
+		return genq{text: "query A { " + genSel(r, "Query") + " } mutation B { " + genSel(r, "Mutation") + " } subscription C { " + genSel(r, "Subscription") + " }",
+			class_: "valid-multi", ops: []string{"A", "B", "C"}}
+	case 3:
+		return genq{text: "query V($x: Int!, $s: String) { b(x: $x) { id } c(s: $s) { v } }", class_: "valid-vars", ops: []string{"V", ""},
+			vars: []string{`{"x": 1}`, `{"x": 5, "s": "q"}`, `{}`, `{"x": "no"}`, `{"x": null}`, `{"x": 1, "zz": 2}`, `{"x": 1.5}`}}
+	case 4:
+		return genq{text: "mutation M($x: Int!) { set(x: $x) { id } }  query Q2($i: Inp) { d(i: $i) }", class_: "valid-vars-multi", ops: []string{"M", "Q2"},
+			vars: []string{`{"x": 3, "i": {"a": 1}}`, `{"x": 3}`, `{"i": {"a": 1}}`, `{"i": {"b": "only"}}`, `{"x": [1]}`, ``}}
+	default:
+		return genq{text: "subscription S { " + genSel(r, "Subscription") + " }", class_: "valid-sub", ops: []string{"S", ""}}
+	}
+}
+
+func genInvalid(r *rng.R) genq {
+	base := genSel(r, "Query")
+	switch r.Below(16) {
+	case 0:
+		return genq{text: "{ " + base, class_: "syntax-unclosed", ops: []string{""}}
+	case 1:
+		return genq{text: "query { " + base + " } }", class_: "syntax-extra-brace", ops: []string{""}}
+	case 2:
+		return genq{text: pick(r, []string{"", "   ", "}", "query", "{ a(x: ) }", "{ a } ??", "\"str\"", "{ a: }"}), class_: "syntax-garbage", ops: []string{""}}
+	case 3:
+		return genq{text: "{ " + base + " " + pick(r, []string{"nam", "nme", "lst", "aa"}) + " }", class_: "unknown-field-near", ops: []string{""}}
+	case 4:
+		return genq{text: "{ " + base + " " + pick(r, []string{"zzzzzzzz", "qqqq_unknown"}) + " }", class_: "unknown-field-far", ops: []string{""}}
+	case 5:
+		return genq{text: "{ b(x: 1) { id " + pick(r, []string{"vv", "nope", "idd"}) + " } }", class_: "unknown-child-field", ops: []string{""}}
+	case 6:
+		return genq{text: "{ b(x: \"str\") { id } }", class_: "wrong-arg-type", ops: []string{""}}
+	case 7:
+		return genq{text: "{ b { id } }", class_: "missing-required-arg", ops: []string{""}}
+	case 8:
+		return genq{text: "{ a(zz: 1) " + base + " }", class_: "unknown-arg", ops: []string{""}}
+	case 9:
+		return genq{text: "query A { a } query A { name }", class_: "duplicate-op-name", ops: []string{"A", ""}}
+	case 10:
+		return genq{text: "{ a } query B { name }", class_: "anonymous-not-alone", ops: []string{"", "B"}}
+	case 11:
+		return genq{text: "fragment F on T { id }", class_: "no-operation", ops: []string{"", "F"}}
+	case 12:
+		return genq{text: "query U($x: Int) { a }", class_: "unused-variable", ops: []string{"U", ""}, vars: []string{``, `{"x": 1}`}}
+	case 13:
+		return genq{text: "{ b(x: $y) { id } }", class_: "undefined-variable", ops: []string{""}, vars: []string{``, `{"y": 1}`}}
+	case 14:
+		return genq{text: "{ a { id } name }", class_: "selection-on-scalar", ops: []string{""}}
+	default:
+		return genq{text: "{ list " + base + " ... on Nope { id } }", class_: "leaf-missing+unknown-type", ops: []string{""}}
+	}
+}
+
+func allFlags(r *rng.R) string {
+	for {
+		m := r.Below(64)
+		if m == 0 {
+			continue
+		}
+		// favour richer extensions
+		if r.Below(3) == 0 {
+			m |= r.Below(64)
+		}
+		s := ""
+		for i, c := range "PCORTF" {
+			if m>>i&1 == 1 {
+				s += string(c)
+			}
+		}
+		return s
+	}
+}
+
+func genSession(r *rng.R, forceServer int) *session {
+	s := &session{}
+	s.cache = pick(r, []string{"none", "map", "lru1", "lru2", "lru3", "lru1000"})
+	s.disable = r.Below(3) == 0
+	n := r.Below(6)
+	if r.Below(8) == 0 {
+		n = 6 + r.Below(6)
+	}
+	ids := map[int]bool{}
+	for i := 0; i < n; i++ {
+		id := r.Below(20)
+		for ids[id] {
+			id = r.Below(20)
+		}
+		ids[id] = true
+		s.exts = append(s.exts, extSpec{id, allFlags(r)})
+	}
+	s.server = r.Below(3) == 0
+	if forceServer >= 0 {
+		s.server = forceServer == 1
+	}
+	return s
+}
+
+func subset(r *rng.R, s *session, flag string, p int) []int {
+	var l []int
+	for _, e := range s.exts {
+		if strings.Contains(e.flags, flag) && r.Below(p) == 0 {
+			l = append(l, e.id)
+		}
+	}
+	// occasionally name an extension that is not registered / has no such hook: must have no effect
+	if r.Below(10) == 0 {
+		l = append(l, 20+r.Below(5))
+	}
+	return l
+}
+
+func genRequest(r *rng.R, s *session, pool []genq) *request {
+	g := pick(r, pool)
+	q := &request{text: g.text, class_: g.class_, emit: 1, polls: 1}
+	// operation name: mostly a sensible one, sometimes unknown
+	switch r.Below(8) {
+	case 0:
+		q.op = "Nope"
+	default:
+		q.op = pick(r, g.ops)
+	}
+	if len(g.vars) > 0 {
+		if r.Below(2) == 0 {
+			q.vars = g.vars[0]
+		} else {
+			q.vars = pick(r, g.vars)
+		}
+	}
+	if r.Below(6) == 0 {
+		q.pmrej = subset(r, s, "P", 2)
+	}
+	if r.Below(6) == 0 {
+		q.cmrej = subset(r, s, "C", 2)
+	}
+	if r.Below(8) == 0 {
+		q.blk = subset(r, s, "O", 2)
+	}
+	if r.Below(8) == 0 {
+		q.pmrw = map[int]string{}
+		for _, id := range subset(r, s, "P", 2) {
+			q.pmrw[id] = pick(r, pool).text
+		}
+	}
+	q.xerr = r.Below(12) == 0
+	q.emit = r.Below(4)
+	if !s.server {
+		q.polls = 1 + r.Below(5)
+	}
+	return q
+}
+
+func runSession(s *session, reqs []*request) {
+	s.build()
+	route := "direct"
+	if s.server {
+		route = "post"
+	}
+	fmt.Fprintf(out, "S\t%s\t%s\n", s.line(), route)
+	for _, q := range reqs {
+		line := s.reqLine(q)
+		acc, resps, log, flags := s.do(q)
+		fmt.Fprintf(out, "R\t%s\t%s %s %s\t%s\t%s\t%s\n", line, acc, resps, log, flags, q.class_, strconv.Quote(q.text))
+	}
+}
+
+// directed sessions: the shapes section 6 of the design lists
+func directed() {
+	all := []extSpec{{0, "PCORTF"}, {1, "PCORTF"}, {2, "PCORTF"}}
+	valid := "{ k0: name k1: b(x: 1) { id v } }"
+	two := "query A { a } query B { name }"
+	for _, cache := range []string{"none", "map", "lru1", "lru2"} {
+		for _, dis := range []bool{false, true} {
+			for _, server := range []bool{false, true} {
+				s := &session{cache: cache, disable: dis, exts: all, server: server}
+				reqs := []*request{
+					{text: valid, emit: 1, polls: 1, class_: "d-valid"},
+					{text: valid, emit: 1, polls: 1, class_: "d-valid-cached"},
+					{text: "{ nam }", emit: 1, polls: 1, class_: "d-unknown-near"},
+					{text: "{ nam }", emit: 1, polls: 1, class_: "d-unknown-near-again"},
+					{text: two, op: "A", emit: 1, polls: 1, class_: "d-two-A"},
+					{text: two, op: "", emit: 1, polls: 1, class_: "d-two-ambiguous-after-A"},
+					{text: two, op: "B", emit: 1, polls: 1, class_: "d-two-B"},
+					{text: two, op: "C", emit: 1, polls: 1, class_: "d-two-unknown"},
+					{text: valid, pmrej: []int{1}, emit: 1, polls: 1, class_: "d-pm-reject-cached"},
+					{text: valid, cmrej: []int{0, 2}, emit: 1, polls: 1, class_: "d-cm-reject-cached"},
+					{text: valid, blk: []int{1}, emit: 1, polls: 1, class_: "d-op-block"},
+					{text: valid, xerr: true, emit: 1, polls: 1, class_: "d-exec-error"},
+					{text: "{ a", pmrw: map[int]string{1: valid}, emit: 1, polls: 1, class_: "d-rewrite-to-valid"},
+					{text: valid, pmrw: map[int]string{0: "{ nope }", 2: "{ a"}, emit: 1, polls: 1, class_: "d-rewrite-to-invalid"},
+					{text: "query V($x: Int!) { b(x: $x) { id } }", vars: `{"x": 1}`, emit: 1, polls: 1, class_: "d-vars-ok"},
+					{text: "query V($x: Int!) { b(x: $x) { id } }", vars: `{}`, emit: 1, polls: 1, class_: "d-vars-missing-cached"},
+					{text: "query V($x: Int!) { b(x: $x) { id } }", vars: `{"x": "s"}`, emit: 1, polls: 1, class_: "d-vars-badtype-cached"},
+					{text: "fragment F on T { id }", emit: 1, polls: 1, class_: "d-no-operation"},
+					{text: "", emit: 1, polls: 1, class_: "d-empty"},
+				}
+				if !server {
+					reqs = append(reqs,
+						&request{text: "subscription { tick { id v } }", emit: 3, polls: 6, class_: "d-sub-3"},
+						&request{text: "subscription { tick { id v } }", emit: 0, polls: 2, class_: "d-sub-0"},
+						&request{text: "subscription { tick { id v } }", emit: 3, polls: 2, class_: "d-sub-short-poll"},
+						&request{text: valid, emit: 1, polls: 3, class_: "d-query-poll-to-nil"},
+						&request{text: valid, blk: []int{0}, emit: 1, polls: 3, class_: "d-op-block-outer"},
+						&request{text: valid, xerr: true, emit: 1, polls: 3, class_: "d-exec-error-poll"},
+					)
+				}
+				runSession(s, reqs)
+			}
+		}
+	}
+	// registration order and hook subsets
+	for _, exts := range [][]extSpec{
+		{},
+		{{5, "O"}, {3, "O"}, {9, "O"}},
+		{{9, "F"}, {3, "T"}, {5, "R"}, {1, "O"}, {7, "C"}, {2, "P"}},
+		{{2, "P"}, {7, "C"}, {1, "O"}, {5, "R"}, {3, "T"}, {9, "F"}},
+		{{4, "RF"}, {0, "PCORTF"}, {8, "OT"}, {6, "PC"}},
+	} {
+		s := &session{cache: "lru2", exts: exts}
+		runSession(s, []*request{
+			{text: valid, emit: 1, polls: 2, class_: "d-order"},
+			{text: "{ nope }", emit: 1, polls: 1, class_: "d-order-rejected"},
+			{text: "mutation { m1: bump m2: set(x: 3) { id v } }", emit: 1, polls: 1, class_: "d-order-mutation"},
+		})
+	}
+}
+
+// ------------------------------------------------------------------ modes
+
+func seq(tier string, seed uint64) {
+	r := rng.New(seed)
+	fmt.Fprintf(out, "G\tG reset\n")
+	resetRules()
+	directed()
+	nSess := 400
+	if tier == "thorough" {
+		nSess = 4000
+	}
+	for i := 0; i < nSess; i++ {
+		if i%7 == 3 {
+			fmt.Fprintf(out, "G\tG reset\n")
+			resetRules()
+		}
+		s := genSession(r, -1)
+		// a small pool per session so that texts repeat (cache hits, evictions with lru1..3)
+		var pool []genq
+		for j, n := 0, 2+r.Below(4); j < n; j++ {
+			if r.Below(3) == 0 {
+				pool = append(pool, genInvalid(r))
+			} else {
+				pool = append(pool, genValid(r))
+			}
+		}
+		var reqs []*request
+		for j, n := 0, 3+r.Below(10); j < n; j++ {
+			reqs = append(reqs, genRequest(r, s, pool))
+		}
+		runSession(s, reqs)
+	}
+	fmt.Fprintf(out, "E\tinvalidAdds=%d\n", atomic.LoadInt64(&invalidAdds))
+}
+
+// conc: one executor, many goroutines; per-request logs are judged by the Spec (cache events ignored)
+func conc(seed uint64, disable bool, workers, perWorker int) {
+	r := rng.New(seed)
+	resetRules()
+	s := genSession(r, 0)
+	for len(s.exts) < 3 {
+		s = genSession(r, 0)
+	}
+	s.cache = "lru3"
+	s.disable = disable
+	s.build()
+	var pool []genq
+	for j := 0; j < 6; j++ {
+		if j%3 == 2 {
+			pool = append(pool, genInvalid(r))
+		} else {
+			pool = append(pool, genValid(r))
+		}
+	}
+	fmt.Fprintf(out, "S\t%s\tconc\n", s.line())
+	type job struct {
+		q    *request
+		line string
+	}
+	jobs := make([][]job, workers)
+	for w := range jobs {
+		for i := 0; i < perWorker; i++ {
+			q := genRequest(r, s, pool)
+			jobs[w] = append(jobs[w], job{q, s.reqLine(q)})
+		}
+	}
+	out.Flush()
+	var wg sync.WaitGroup
+	var mu sync.Mutex
+	start := make(chan struct{})
+	for w := range jobs {
+		wg.Add(1)
+		go func(js []job) {
+			defer wg.Done()
+			<-start
+			for _, j := range js {
+				acc, resps, log, flags := s.do(j.q)
+				mu.Lock()
+				fmt.Fprintf(out, "K\t%s\t%s %s %s\t%s\t%s\t%s\n", j.line, acc, resps, log, flags, j.q.class_, strconv.Quote(j.q.text))
+				mu.Unlock()
+			}
+		}(jobs[w])
+	}
+	close(start)
+	wg.Wait()
+	fmt.Fprintf(out, "E\tinvalidAdds=%d\n", atomic.LoadInt64(&invalidAdds))
+}
+
+// window: F03's semantic window. Every try starts from the initial rule list, then `workers` goroutines
+// send their first request at once to an executor with SetDisableSuggestion(true); half of them send a
+// document with an unknown field. Such a request being accepted means Validate ran without any
+// field-existence rule.
+func window(tries, workers int) {
+	bad := "{ nope_unknown_field }"
+	good := "{ name }"
+	accepted, poisoned := 0, 0
+	var panics, goodRejected int64
+	first, firstPanic := "", ""
+	var pmu sync.Mutex
+	for t := 0; t < tries; t++ {
+		resetRules()
+		ex := executor.New(es)
+		cache := graphql.MapCache[*ast.QueryDocument]{}
+		var cmu sync.Mutex
+		ex.SetQueryCache(lockedCache{&cmu, cache})
+		ex.SetDisableSuggestion(true)
+		var wg sync.WaitGroup
+		start := make(chan struct{})
+		var acc int64
+		for w := 0; w < workers; w++ {
+			wg.Add(1)
+			go func(w int) {
+				defer wg.Done()
+				q := good
+				if w%2 == 0 {
+					q = bad
+				}
+				defer func() {
+					if p := recover(); p != nil {
+						atomic.AddInt64(&panics, 1)
+						pmu.Lock()
+						if firstPanic == "" {
+							firstPanic = fmt.Sprintf("try %d: CreateOperationContext(`%s`) panicked: %v", t, q, p)
+						}
+						pmu.Unlock()
+					}
+				}()
+				<-start
+				_, errs := ex.CreateOperationContext(graphql.StartOperationTrace(context.Background()), &graphql.RawParams{Query: q})
+				if q == bad && len(errs) == 0 {
+					atomic.AddInt64(&acc, 1)
+				}
+				if q == good && len(errs) != 0 {
+					atomic.AddInt64(&goodRejected, 1)
+				}
+			}(w)
+		}
+		close(start)
+		wg.Wait()
+		if atomic.LoadInt64(&panics) > 0 {
+			// a torn rule slice may have been left behind: the process state is beyond repair, stop here
+			tries = t + 1
+			break
+		}
+		if acc > 0 {
+			accepted++
+			if first == "" {
+				first = fmt.Sprintf("try %d: %d of %d concurrent first requests `%s` passed validation", t, acc, workers/2, bad)
+			}
+			if _, ok := cache[bad]; ok {
+				poisoned++
+			}
+		}
+	}
+	func() {
+		defer func() { _ = recover() }()
+		resetRules()
+	}()
+	fmt.Fprintf(out, "W\ttries=%d\tworkers=%d\taccepted_tries=%d\tcache_poisoned=%d\tpanics=%d\tgood_rejected=%d\t%s\t%s\n", tries, workers, accepted, poisoned, panics, goodRejected, first, firstPanic)
+}
+
+type lockedCache struct {
+	mu *sync.Mutex
+	m  graphql.MapCache[*ast.QueryDocument]
+}
+
+func (c lockedCache) Get(ctx context.Context, k string) (*ast.QueryDocument, bool) {
+	c.mu.Lock()
+	defer c.mu.Unlock()
+	return c.m.Get(ctx, k)
+}
+func (c lockedCache) Add(ctx context.Context, k string, v *ast.QueryDocument) {
+	c.mu.Lock()
+	defer c.mu.Unlock()
+	c.m.Add(ctx, k, v)
+}
+
+func main() {
+	tier := flag.String("tier", "quick", "")
+	seedS := flag.String("seed", "1", "")
+	mode := flag.String("mode", "seq", "")
+	disable := flag.Bool("disable", false, "")
+	workers := flag.Int("workers", 8, "")
+	per := flag.Int("per", 50, "")
+	tries := flag.Int("tries", 2000, "")
+	flag.Parse()
+	seed, _ := strconv.ParseUint(*seedS, 10, 64)
+	defer out.Flush()
+	switch *mode {
+	case "seq":
+		seq(*tier, seed)
+	case "conc":
+		conc(seed, *disable, *workers, *per)
+	case "window":
+		window(*tries, *workers)
 	}
 }
